@@ -33,3 +33,30 @@ Section H1.
     destruct j as [|[|[|j]]]; try (exfalso; lia); cbn; field; repeat split; lra.
   Qed.
 End H1.
+
+(* ---- second round: Cauchy conversions, spatial moduli, Eulerian setting (1D) *)
+Section H1b.
+  Variables F0 F1 F2 T0 T1 T2 K0 K1 K2 K3 K4 K5 K6 K7 K8 : R.
+  Hypothesis H0 : 0 < F0. Hypothesis H1 : 0 < F1. Hypothesis H2 : 0 < F2.
+  Let out := lsh1 F0 F1 F2 T0 T1 T2 K0 K1 K2 K3 K4 K5 K6 K7 K8.
+  Let J := F0 * F1 * F2.
+  (* sigma = T / J (the dual of the Hencky strain is the Kirchhoff stress in the principal axes) and back *)
+  Lemma cauchy_ok : nth 18 out 0 = T0 / J /\ nth 19 out 0 = T1 / J /\ nth 20 out 0 = T2 / J /\ nth 21 out 0 = T0 /\ nth 22 out 0 = T1 /\ nth 23 out 0 = T2.
+  Proof. subst out J; unfold lsh1; cbn. assert (HJ : F0 * F1 * F2 <> 0) by (apply Rgt_not_eq; repeat apply Rmult_lt_0_compat; lra).
+    repeat split; field; repeat split; lra. Qed.
+  (* spatial moduli = push-forward of the material moduli (C_i C_j dS_i/dE_j) = Ks_ij - 2 delta_ij T_i; Truesdell-rate moduli = spatial / J *)
+  Lemma spatial_ok :
+    let C i := nth i [F0 * F0; F1 * F1; F2 * F2] 0 in let T i := nth i [T0; T1; T2] 0 in
+    let Ks i j := nth (3 * i + j) [K0; K1; K2; K3; K4; K5; K6; K7; K8] 0 in
+    forall i j, (i < 3)%nat -> (j < 3)%nat ->
+      nth (24 + 3 * i + j) out 0 = C i * C j * nth (6 + 3 * i + j) out 0 /\
+      nth (24 + 3 * i + j) out 0 = Ks i j - (if Nat.eqb i j then 2 * T i else 0) /\
+      nth (33 + 3 * i + j) out 0 = nth (24 + 3 * i + j) out 0 / J.
+  Proof.
+    intros C T Ks i j Hi Hj. subst out C T Ks J. unfold lsh1.
+    destruct i as [|[|[|i]]]; try (exfalso; lia); destruct j as [|[|[|j]]]; try (exfalso; lia); cbn; repeat split; field; repeat split; lra.
+  Qed.
+  (* the 1D handler does not depend on the setting: the Eulerian one returns the same values (Hencky strain 1/2 ln b with b = C) *)
+  Lemma eulerian_ok : lsh1_E F0 F1 F2 T0 T1 T2 K0 K1 K2 K3 K4 K5 K6 K7 K8 = out.
+  Proof. reflexivity. Qed.
+End H1b.
